@@ -238,6 +238,34 @@ Theorem C03_user_calls_inputs : forall ad rules g i a, In (i, a) (user_calls ad 
 Proof. exact user_calls_inputs. Qed.
 Print Assumptions C03_user_calls_inputs.
 
+(* rules with side effects on their argument (they drop / reconnect / rename nodes of the graph
+   object they were given): when every such rule is a domain rule under a copying adapter
+   (DirectAdapter: deep copy, NetworkX adapter: new DiGraph) the verifier behaves exactly like the
+   pure loop on the original graph and leaves the verified graph unchanged, so a second
+   verification of the same object gives the same answer.  A rule that is native (or any rule
+   under IdentityAdapter) is handed the verified graph itself and can change what later rules
+   see: the second theorem exhibits it. *)
+Theorem C03_verify_m_frame : forall ad rf rules s, protected ad rules = true ->
+  verify_m ad rf rules s = (verify (restore_of ad) rf (map denote rules) (fst s), s) /\
+  user_calls_m ad 0 rules s = user_calls ad 0 rules (fst s).
+Proof. exact verify_m_frame. Qed.
+Print Assumptions C03_verify_m_frame.
+
+Theorem C03_verify_m_repeat : forall ad rf rules s, protected ad rules = true ->
+  verify_m ad rf rules (snd (verify_m ad rf rules s)) = verify_m ad rf rules s.
+Proof. exact verify_m_repeat. Qed.
+Print Assumptions C03_verify_m_repeat.
+
+Theorem C03_aliasing_rule_changes_verdict : exists ad rules g,
+  fst (verify_m ad false rules (g, false)) <> verify (restore_of ad) false (map denote rules) g.
+Proof. exact aliasing_rule_changes_verdict. Qed.
+Print Assumptions C03_aliasing_rule_changes_verdict.
+
+Theorem C03_holds_m_sound : forall ad rf rules g l, protected ad rules = true -> holds_m ad rf rules g l = true ->
+  forall m, In m l -> mo_final m = g /\ mo_renamed m = false /\ holds_b ad rf rules g (mo_obs m) = true.
+Proof. exact holds_m_sound. Qed.
+Print Assumptions C03_holds_m_sound.
+
 (* ---------------------------------------------------------------------------------------- *)
 (* 6. the oracle of holds_b decides the stated conditions; check_case = agree/holds_b per run *)
 (* ---------------------------------------------------------------------------------------- *)
@@ -327,6 +355,16 @@ Example ex_twins :
   call_seq v [[[]; [0]; [0]]; [[]; []; [0]; [1]]] = [Accept; Reject] /\
   call_seq v [[[]; []; [0]; [1]]; [[]; [0]; [0]]; [[]; []; [0]; [1]]] = [Reject; Accept; Reject].
 Proof. vm_compute. split; reflexivity. Qed.
+
+(* a -> b -> c with a domain rule that drops a node of its argument under DirectAdapter: accepted,
+   graph unchanged; the same rule registered native: later rules judge the shrunken graph *)
+Example ex_mutating :
+  let rules n := [CU n (UMutate MDropLast RTrue); CB BHasRoot; CB BNoIsoNodes; CU false (UNodesLe 3 RFalse)] in
+  protected AdDirect (rules false) = true /\
+  verify_m AdDirect false (rules false) ([[1]; [2]; []], false) = (Accept, ([[1]; [2]; []], false)) /\
+  verify_m AdDirect false (rules true) ([[1]; [2]; []], false) = (Accept, ([[1]; []], false)) /\
+  verify_m AdIdentity false [CU false (UMutate MRename RTrue)] ([[1]; []], false) = (Accept, ([[1]; []], true)).
+Proof. vm_compute. repeat split. Qed.
 
 (* a rule raising a foreign exception is outside verify_iff, and its exception escapes *)
 Example ex_other : verify (restore_of AdIdentity) false (map denote [CU false (UConst ROther)]) ex_dag = RaiseOther.
